@@ -47,6 +47,11 @@ def run(ctx: Ctx):
               ' stage before it whether or not the caller wants batch outputs back — the caller\'s with_result flag is not passed'
               ' to the per-stage iterators (R-C16-17): an aggregate-only run of a chain would otherwise feed None into every'
               ' downstream stage while the single fused stage is unaffected', c16.r17, min_instances=1)
+  from mlmverif.props import c08 as _c08
+  ctx.include('R-C03-18', '"every supported execution strategy ... the same emitted batches and aggregate results" when the SAME in-memory'
+              ' dataset is handed to one strategy after another: operators reach records only through the copying tree API and'
+              ' never write into them (R-C08-1) — an assign that writes into the caller\'s batch dicts makes every later run'
+              ' start from the previous run\'s output', _c08.r1, min_instances=5)
   ctx.include('R-C03-9', '"with any number of worker threads ... as a chain of named'
               ' stages": threads that share one upstream iterator (the previous'
               ' stage) pull from it under a lock, whatever kind of iterator it is'
@@ -672,6 +677,8 @@ from mlmverif.selfcheck import B, OK  # noqa: E402
 
 _T = 'chainables/transform.py'
 VARIANTS = [
+    B('assign-writes-into-the-callers-record', 'chainables/tree_fns.py',
+      "      else:\n        result = result.copy_and_set(keys, output)\n    return result.data", "      else:\n        result[keys] = output\n    return result.data", 'R-C03-18'),
     B('chain-result-rebuilt-from-empty-per-stage', 'chainables/transform.py',
       "    it_result = itertools.chain.from_iterable(\n        agg_result.items()\n        for r in self.named_aggs.values()\n        if (agg_result := r.get_result(state))\n    )\n    return tree.TreeMapView().copy_and_update(it_result).data",
       "    result = tree.TreeMapView()\n    for r in self.named_aggs.values():\n      if agg_result := r.get_result(state):\n        result = tree.TreeMapView().copy_and_update(agg_result.items())\n    return result.data", 'R-C03-17'),
